@@ -296,7 +296,7 @@ pub fn run(ctx: &Ctx) -> ! {
     hp.stores = vec![crate::providers::StoreKind::Mem, crate::providers::StoreKind::Sql];
     let spec = RunSpec {
         shards: 16,
-        cases_per_shard: ctx.tier.pick(60, 900),
+        cases_per_shard: ctx.tier.pick(60, 300),
         cfg_len: CFG_LEN,
         min_ops: 4,
         max_ops: ctx.tier.pick(26, 60),
